@@ -152,6 +152,20 @@ Qed.
 Lemma outcome_matches_own : forall o, outcome_matches o (own_outcome o) = true.
 Proof. intros [v|[m|m|]]; cbn; try apply String.eqb_refl; reflexivity. Qed.
 
+(** the oracle's "finished by the end of the requested wait" is the model's, for the code as it is *)
+Lemma finished_in_time_spec : forall c dl,
+  call_deadline FNow (fc_now c) (fc_call c) = Some dl ->
+  finished_by_deadline (mkj dl (fc_now c) (fc_fin c)) = finished_in_time c.
+Proof.
+  intros c dl Hd. unfold finished_by_deadline, finished_in_time, mkj. cbn [jj_fin_at jj_now jj_deadline].
+  destruct (fc_fin c) as [f|]; [|reflexivity].
+  destruct (fc_call c) as [|d]; cbn [call_deadline] in Hd.
+  - inversion Hd; subst. reflexivity.
+  - destruct (d <=? U64MAX) eqn:E; inversion Hd; subst.
+    + apply Z.leb_le in E. rewrite Z.min_l by exact E. reflexivity.
+    + apply Z.leb_gt in E. rewrite Z.min_r by lia. reflexivity.
+Qed.
+
 Lemma fprop_run : forall o ptr cs s,
   ptr_ok ptr = true -> fs_inv s ->
   fprop o (fs_consumed s) (combine cs (facade_run FNow true ptr o s cs)) = true.
@@ -170,9 +184,7 @@ Proof.
   - rewrite (step_not_available FNow o ptr s _ _ _ dl Hd E). cbn [combine fprop].
     rewrite (IH s Hp Hinv), andb_true_r.
     destruct (fs_consumed s); [apply orb_true_r|]. cbn [negb] in E. rewrite andb_true_r in E.
-    unfold finished_by_deadline, mkj in E. cbn in E.
-    destruct (fc_fin c) as [f|]; [|reflexivity].
-    apply orb_false_iff in E as [E _]. rewrite E. reflexivity.
+    rewrite <- (finished_in_time_spec c dl Hd), E. reflexivity.
 Qed.
 
 Theorem facade_oracle_ok : forall o ptr cs,
